@@ -304,7 +304,10 @@ CLAIMED = {
               "rodded bounds) on generated layouts.  Fuel pellets (Model/AcceptFuel.lean, Props/C18Fuel.lean): acceptance implies the gap "
               "that is USED (standard or legacy key) leaves room for a pellet, radial zones of positive thickness inside the "
               "pellet, porosities and weight fractions in range, a finite positive porosity correction; tied to the real "
-              "check_fuel_model (verdict and error kind).  PARTIAL: the model is tied to the real reader by differential classification on valid "
+              "check_fuel_model (verdict and error kind).  Position numbering (Model/Assignment.lean, Props/C18Assignment.lean): the index "
+              "the reader gives a (ring, position) is a bijection between the positions of an n-ring core and 0..3n(n-1), and an "
+              "accepted Assignment line names existing positions only; tied to parse_assignment_section (verdict, indices, ring and "
+              "position of every entry).  PARTIAL: the model is tied to the real reader by differential classification on valid "
               "generated inputs and single-fault perturbations (38 fault classes across the input keys); independently every "
               "invalid class must end in SystemExit before any temperature is computed and every valid generated input must "
               "be set up and swept (60 planes) without exception or hang; a single-key perturbation sweep (every numeric "
